@@ -5,25 +5,70 @@ the value it returns) and not by the spelling of locals or the layout of the gua
 from __future__ import annotations
 
 import ast
+import copy
 from collections import deque
 
 from ..model import unparse
 from ..normalize import expanded, single_assignments
 
 
+def with_result_temporaries(fn_node, defs: dict) -> dict:
+    """`defs` plus the normaliser's result temporaries of expanded helpers (`_ret__iN = None` followed by exactly one
+    `_ret__iN = <expr>`: a helper with a single return): they stand for that expression."""
+    vals: dict = {}
+    for holder in ast.walk(fn_node):
+        for fld in ("body", "orelse", "finalbody"):
+            blk = getattr(holder, fld, None)
+            if not (isinstance(blk, list) and blk and isinstance(blk[0], ast.stmt)):
+                continue
+            for a in blk:
+                if isinstance(a, ast.Assign) and len(a.targets) == 1 and isinstance(a.targets[0], ast.Name) and a.targets[0].id.startswith("_ret__i"):
+                    vals.setdefault(a.targets[0].id, []).append((a.value, id(blk)))
+    out = dict(defs)
+    for name, vs in vals.items():
+        real = [v for v, _b in vs if not (isinstance(v, ast.Constant) and v.value is None)]
+        # initialiser and the one result in the same statement list: the result is bound unconditionally
+        if len(real) == 1 and len(vs) == 2 and len({b for _v, b in vs}) == 1 and name not in out:
+            out[name] = real[0]
+    return out
+
+
 class Facts:
     """Assumed facts about (alias-expanded) expressions of one function:
     truthy[text] -> bool, notnone[text] -> bool, value[text] -> constant."""
 
-    def __init__(self, fn_node, truthy=None, notnone=None, value=None):
+    def __init__(self, fn_node, truthy=None, notnone=None, value=None, fields=None):
         self.fn_node = fn_node
-        self.defs = single_assignments(fn_node)
+        self.defs = with_result_temporaries(fn_node, single_assignments(fn_node))
         self.truthy = dict(truthy or {})
         self.notnone = dict(notnone or {})
         self.value = dict(value or {})
+        # text of an attribute of self -> the expression it stands for (a property's result, the only value a cached field
+        # is ever given): substituted after the locals, not expanded again (its free names belong to another function)
+        self.fields = dict(fields or {})
 
     def x(self, expr):
-        return expanded(expr, self.fn_node, self.defs)
+        e = expanded(expr, self.fn_node, self.defs)
+        if not self.fields:
+            return e
+        fields = self.fields
+
+        class F(ast.NodeTransformer):
+            def visit_Attribute(self, n):
+                t = unparse(n)
+                if t in fields and isinstance(n.ctx, ast.Load):
+                    return ast.copy_location(copy.deepcopy(fields[t]), n)
+                self.generic_visit(n)
+                return n
+
+            def visit_Call(self, n):
+                t = unparse(n)
+                if t in fields:
+                    return ast.copy_location(copy.deepcopy(fields[t]), n)
+                self.generic_visit(n)
+                return n
+
+        return F().visit(e)
 
     def text(self, expr) -> str:
         return unparse(self.x(expr))
@@ -96,8 +141,9 @@ class Facts:
         return None
 
 
-def reach3(g, starts, facts: Facts | None = None, avoid=lambda n: False):
-    """Nodes reachable from `starts` without entering a node with avoid(n); edges of tests decided by `facts` are pruned."""
+def reach3(g, starts, facts: Facts | None = None, avoid=lambda n: False, normal_only=False):
+    """Nodes reachable from `starts` without entering a node with avoid(n); edges of tests decided by `facts` are pruned;
+    with normal_only the edges taken by a raised exception are not followed."""
     seen = set()
     dq = deque(starts)
     while dq:
@@ -112,7 +158,9 @@ def reach3(g, starts, facts: Facts | None = None, avoid=lambda n: False):
                 succ = [(m, l) for m, l in succ if l != "false"]
             elif v is False:
                 succ = [(m, l) for m, l in succ if l != "true"]
-        for m, _ in succ:
+        for m, lab in succ:
+            if normal_only and lab in ("exc", "raise"):
+                continue
             if m not in seen:
                 dq.append(m)
     return seen
@@ -405,3 +453,54 @@ def field_resets(g, fn_node, sn) -> dict:
             if r:
                 out[n] = r
     return out
+
+
+def self_field_meaning(p, cls, field, sn="self"):
+    """What `self.<field>` of class `cls` stands for, when that is one expression: the result of a property getter with a
+    single `return <expr>`, or the only non-constant value the field is ever assigned in the class's methods (a cached
+    flag; the constant default of __init__ is ignored).  The expression is alias-expanded in the function it comes from and
+    spelled with `sn` for self; names of that function's parameters / unresolved locals are renamed apart (`<name>@<function>`
+    is not a valid identifier in any other function, so they can never be mistaken for a local of the reader).  Returns
+    (expr, owner FuncInfo) or None."""
+    def foreign(e, fi):
+        osn = fi.self_name or "self"
+
+        class R(ast.NodeTransformer):
+            def visit_Name(self, n):
+                if n.id == osn:
+                    return ast.copy_location(ast.Name(id=sn, ctx=n.ctx), n)
+                return ast.copy_location(ast.Name(id=f"{n.id}@{fi.name}", ctx=n.ctx), n)
+
+        return R().visit(copy.deepcopy(e))
+
+    pr = cls.props.get(field) if hasattr(cls, "props") else None
+    meth = cls.lookup(field)
+    if pr is None and meth is not None and meth[1] == "method" and len(meth[2].params) == 1:
+        # an argument-less method with a single `return <expr>` read as `self.<field>()`
+        rets = [r for r in own_nodes(meth[2].node) if isinstance(r, ast.Return)]
+        if len(rets) == 1 and rets[0].value is not None:
+            return foreign(Facts(meth[2].node).x(rets[0].value), meth[2]), meth[2]
+        return None
+    if pr is not None and pr.getter is not None:
+        rets = [r for r in own_nodes(pr.getter.node) if isinstance(r, ast.Return)]
+        if len(rets) == 1 and rets[0].value is not None:
+            return foreign(Facts(pr.getter.node).x(rets[0].value), pr.getter), pr.getter
+        return None
+    vals = []
+    members = list(cls.methods.values()) + [f for q in cls.props.values() for f in (q.getter, q.setter) if f is not None]
+    for fi in members:
+        osn = fi.self_name
+        if osn is None:
+            continue
+        for a in own_nodes(fi.node):
+            if isinstance(a, (ast.Assign, ast.AnnAssign)) and a.value is not None:
+                tgs = a.targets if isinstance(a, ast.Assign) else [a.target]
+                if any(_self_field(t, osn) == field for t in tgs):
+                    if fi.name == "__init__" and isinstance(a.value, ast.Constant):
+                        continue
+                    vals.append((Facts(fi.node).x(a.value), fi))
+            elif isinstance(a, (ast.AugAssign,)) and _self_field(a.target, osn) == field:
+                return None
+    if not vals or len({unparse(v) for v, _ in vals}) != 1:
+        return None
+    return foreign(vals[0][0], vals[0][1]), vals[0][1]
